@@ -29,17 +29,17 @@ type Env struct {
 type FieldKind int
 
 const (
-	FValue   FieldKind = iota // string, bool, int, token.Token, ChanDir ... (immutable kinds)
-	FPos                      // token.Pos
-	FNode                     // pointer to node struct or node interface
-	FNodeSlice                // slice of nodes
-	FNodeMap                  // map[string]node
-	FObjMap                   // map[string]*Object
-	FObject                   // *Object
-	FScope                    // *Scope
-	FDecs                     // the Decs struct
-	FComment                  // *CommentGroup / []*CommentGroup
-	FIdentSlice               // []*Ident that is not syntax (File.Unresolved)
+	FValue      FieldKind = iota // string, bool, int, token.Token, ChanDir ... (immutable kinds)
+	FPos                         // token.Pos
+	FNode                        // pointer to node struct or node interface
+	FNodeSlice                   // slice of nodes
+	FNodeMap                     // map[string]node
+	FObjMap                      // map[string]*Object
+	FObject                      // *Object
+	FScope                       // *Scope
+	FDecs                        // the Decs struct
+	FComment                     // *CommentGroup / []*CommentGroup
+	FIdentSlice                  // []*Ident that is not syntax (File.Unresolved)
 	FOther
 )
 
